@@ -501,6 +501,37 @@ def validate_recombine(ctx):
     _cmp(ctx, "pgen.recombine", reqs, wants)
 
 
+def validate_init(ctx):
+    """parserinfo.__init__ of the stock class and of the custom subclasses, with the clock's year patched"""
+    import time as _time
+    from dateutil.parser import _parser as P
+    from dateutil.parser import parserinfo
+    rng = ctx.subrng("pgen.init")
+    reqs, wants = [], []
+    classes = [(parserinfo, False)] + [(k, True) for _, k in L.custom_infos()]
+    real = P.time.localtime
+    try:
+        for _ in range(ctx.budget(300, 1500)):
+            klass, custom = rng.choice(classes)
+            year = rng.choice([1970, 1999, 2000, 2026, 2099, 2100, 9999, 100, 99, 1, rng.randrange(1, 10000)])
+            df, yf = rng.random() < 0.5, rng.random() < 0.5
+            P.time.localtime = lambda *a: _time.struct_time((year, 1, 1, 0, 0, 0, 0, 1, 0))
+            def run():
+                i = klass(df, yf)
+                def keys(d): return ",".join(L.cps(k) for k in d)
+                def items(d): return ",".join("%s=%d" % (L.cps(k), v) for k, v in d.items())
+                return "%d %d %d %d ; %s ; %s ; %s ; %s ; %s ; %s ; %s" % (
+                    i._year, i._century, i.dayfirst, i.yearfirst, keys(i._jump), items(i._weekdays), items(i._months), items(i._hms),
+                    items(i._ampm), keys(i._utczone), keys(i._pertain))
+            w = _r(run, str)
+            inst = klass(df, yf)
+            reqs.append("pgen.init %s %d %d %d" % (L.info_wire(inst, custom) if custom else "D00", year, df, yf))
+            wants.append(w)
+    finally:
+        P.time.localtime = real
+    _cmp(ctx, "pgen.init", reqs, wants)
+
+
 class _TailCtx:
     """the model_answers machinery of _parser_lib with `parser.parse` requests sent to the TRANSLATED tail of parse()"""
 
@@ -625,3 +656,4 @@ def validate(ctx):
     validate_parse(ctx)
     validate_parsetail(ctx)
     validate_recombine(ctx)
+    validate_init(ctx)
